@@ -28,7 +28,7 @@ RULE = (
     "distinct (hierarchy digest, file, history-prefix digest)."
 )
 TIERS = {
-    "quick": {"runs": 150, "budget_s": 45, "min_runs": 4, "run_timeout_s": 240},
+    "quick": {"runs": 150, "budget_s": 60, "min_runs": 4, "run_timeout_s": 240},
     "thorough": {"runs": 10000, "budget_s": 780, "min_runs": 40, "run_timeout_s": 600},
 }
 COMPONENTS_REAL = [
